@@ -16,15 +16,15 @@ theorem goto_congr {X Y : State} (a : Nat) (pc : Pc) (hA : X.acts = Y.acts) :
 theorem jobs_goto' (X : State) (a : Nat) (pc : Pc) : (X.goto a pc).jobs = X.jobs := by unfold State.goto; split <;> rfl
 theorem qs_goto' (X : State) (a : Nat) (pc : Pc) : (X.goto a pc).qs = X.qs := by unfold State.goto; split <;> rfl
 
-theorem JobInv.dequeue_take {s : State} {a q j : Nat} {pc' : Pc} (h : JobInv s) (hlt : a < s.acts.length)
+theorem FullInv.dequeue_take {s : State} {a q j : Nat} {pc' : Pc} (h : FullInv s) (hlt : a < s.acts.length)
     (hidle : (s.pcAt a).runningQ = none) (hd : (s.dequeue q a).2 = some j) (hnew : pc'.runningQ = some (j, q)) :
-    JobInv ((s.dequeue q a).1.goto a pc') := by
+    FullInv ((s.dequeue q a).1.goto a pc') := by
   obtain ⟨v, rest, hv, hjobs, hX⟩ := dequeue_some hd
   rw [hX]
   have hqj : s.qjobs q = some (j :: rest) := by rw [qjobs_of hv, hjobs]
   have hjq := h.queued q _ j hqj (by simp)
   obtain ⟨b, hb, hbph, hbq⟩ := jobPQ_some hjq
-  refine JobInv.take h ?_ ?_ hidle hqj ?_ ?_ ?_ hnew
+  refine FullInv.take h ?_ ?_ hidle hqj ?_ ?_ ?_ ?_ ?_ hnew
   · simpa using hlt
   · intro c; simp
   · intro i
@@ -33,15 +33,17 @@ theorem JobInv.dequeue_take {s : State} {a q j : Nat} {pc' : Pc} (h : JobInv s) 
   · intro i
     rw [qjobs_setJobPh, qjobs_setQ_of hv]
   · intro i; simp
+  · intro i; simp
+  · simp
 
-theorem JobInv.dequeue_none {s : State} {a q : Nat} {pc' : Pc} (h : JobInv s)
+theorem FullInv.dequeue_none {s : State} {a q : Nat} {pc' : Pc} (h : FullInv s) (hx : HeldExcl s.jobPQ)
     (hd : (s.dequeue q a).2 = none) (hrun : pc'.runningQ = (s.pcAt a).runningQ) :
-    JobInv ((s.dequeue q a).1.goto a pc') := by
+    FullInv ((s.dequeue q a).1.goto a pc') := by
   rw [Desync.dequeue_none hd]
-  exact JobInv.frame h (fun _ => rfl) (fun _ => rfl) (fun _ => rfl) (fun _ hi => Or.inl hi) hrun
+  exact FullInv.frame h hx (fun _ => rfl) (fun _ => rfl) (fun _ => rfl) (fun _ hi => Or.inl hi) (fun _ hi => hi) rfl hrun
 
-theorem j_rjDequeue {s s' : State} {a : Nat} {o : Obs} (hw : WfInv s) (h : JobInv s) (act : Act) (ha : s.acts[a]? = some act) (hc : act.child = none)
-    (q : Nat) (k : Pc) (hpc : act.pc = .rjDequeue q k) (hs : stepAct s a = some (s', o)) : JobInv s' := by
+theorem j_rjDequeue {s s' : State} {a : Nat} {o : Obs} (hw : WfInv s) (h : FullInv s) (hx : HeldExcl s.jobPQ) (act : Act) (ha : s.acts[a]? = some act) (hc : act.child = none)
+    (q : Nat) (k : Pc) (hpc : act.pc = .rjDequeue q k) (hs : stepAct s a = some (s', o)) : FullInv s' := by
   have hlt : a < s.acts.length := lt_of_getElem?_some ha
   have hpca := pcAt_of ha
   have hwk := hw a
@@ -53,13 +55,13 @@ theorem j_rjDequeue {s s' : State} {a : Nat} {o : Obs} (hw : WfInv s) (h : JobIn
   cases hd : (s.dequeue q a).2 with
   | some j =>
     simp only [hd, Option.some.injEq, Prod.mk.injEq] at hs; obtain ⟨rfl, _⟩ := hs
-    exact JobInv.dequeue_take h hlt hidle hd (by simp [Pc.runningQ, Ctx.q])
+    exact FullInv.dequeue_take h hlt hidle hd (by simp [Pc.runningQ, Ctx.q])
   | none =>
     simp only [hd, Option.some.injEq, Prod.mk.injEq] at hs; obtain ⟨rfl, _⟩ := hs
-    exact JobInv.dequeue_none h hd (by rw [hidle]; exact plainFor_running hwk)
+    exact FullInv.dequeue_none h hx hd (by rw [hidle]; exact plainFor_running hwk)
 
-theorem j_pdDequeue {s s' : State} {a : Nat} {o : Obs} (h : JobInv s) (act : Act) (ha : s.acts[a]? = some act) (hc : act.child = none)
-    (p q : Nat) (hpc : act.pc = .pdDequeue p q) (hs : stepAct s a = some (s', o)) : JobInv s' := by
+theorem j_pdDequeue {s s' : State} {a : Nat} {o : Obs} (h : FullInv s) (hx : HeldExcl s.jobPQ) (act : Act) (ha : s.acts[a]? = some act) (hc : act.child = none)
+    (p q : Nat) (hpc : act.pc = .pdDequeue p q) (hs : stepAct s a = some (s', o)) : FullInv s' := by
   have hlt : a < s.acts.length := lt_of_getElem?_some ha
   have hpca := pcAt_of ha
   have hidle : (s.pcAt a).runningQ = none := by rw [hpca, hpc]; rfl
@@ -68,13 +70,13 @@ theorem j_pdDequeue {s s' : State} {a : Nat} {o : Obs} (h : JobInv s) (act : Act
   cases hd : (s.dequeue q a).2 with
   | some j =>
     simp only [hd, Option.some.injEq, Prod.mk.injEq] at hs; obtain ⟨rfl, _⟩ := hs
-    exact JobInv.dequeue_take h hlt hidle hd (by simp [Pc.runningQ, Ctx.q])
+    exact FullInv.dequeue_take h hlt hidle hd (by simp [Pc.runningQ, Ctx.q])
   | none =>
     simp only [hd, Option.some.injEq, Prod.mk.injEq] at hs; obtain ⟨rfl, _⟩ := hs
-    exact JobInv.dequeue_none h hd (by rw [hidle]; rfl)
+    exact FullInv.dequeue_none h hx hd (by rw [hidle]; rfl)
 
-theorem j_dqDequeue {s s' : State} {a : Nat} {o : Obs} (h : JobInv s) (act : Act) (ha : s.acts[a]? = some act) (hc : act.child = none)
-    (f q : Nat) (hpc : act.pc = .dqDequeue f q) (hs : stepAct s a = some (s', o)) : JobInv s' := by
+theorem j_dqDequeue {s s' : State} {a : Nat} {o : Obs} (h : FullInv s) (hx : HeldExcl s.jobPQ) (act : Act) (ha : s.acts[a]? = some act) (hc : act.child = none)
+    (f q : Nat) (hpc : act.pc = .dqDequeue f q) (hs : stepAct s a = some (s', o)) : FullInv s' := by
   have hlt : a < s.acts.length := lt_of_getElem?_some ha
   have hpca := pcAt_of ha
   have hidle : (s.pcAt a).runningQ = none := by rw [hpca, hpc]; rfl
@@ -83,16 +85,16 @@ theorem j_dqDequeue {s s' : State} {a : Nat} {o : Obs} (h : JobInv s) (act : Act
   cases hd : (s.dequeue q a).2 with
   | some j =>
     simp only [hd, Option.some.injEq, Prod.mk.injEq] at hs; obtain ⟨rfl, _⟩ := hs
-    have h1 := JobInv.dequeue_take (pc' := .jobStart j (.task f (s.dequeue q a).1.latches.length q) .dead) h hlt hidle hd (by simp [Pc.runningQ, Ctx.q])
-    exact JobInv.congr h1 (goto_congr _ _ rfl) (by rw [jobs_goto', jobs_goto']) (by rw [qs_goto', qs_goto'])
+    have h1 := FullInv.dequeue_take (pc' := .jobStart j (.task f (s.dequeue q a).1.latches.length q) .dead) h hlt hidle hd (by simp [Pc.runningQ, Ctx.q])
+    exact FullInv.congr h1 (goto_congr _ _ rfl) (by rw [jobs_goto', jobs_goto']) (by rw [qs_goto', qs_goto'])
   | none =>
     simp only [hd, Option.some.injEq, Prod.mk.injEq] at hs; obtain ⟨rfl, _⟩ := hs
-    exact JobInv.dequeue_none h hd (by rw [hidle]; rfl)
+    exact FullInv.dequeue_none h hx hd (by rw [hidle]; rfl)
 
 
-theorem JobInv.requeue_front {s : State} {a q j : Nat} {pc' : Pc} (hh : HolderInv s) (hw : WfInv s) (h : JobInv s) (hlt : a < s.acts.length)
+theorem FullInv.requeue_front {s : State} {a q j : Nat} {pc' : Pc} (hh : HolderInv s) (hw : WfInv s) (h : FullInv s) (hx : HeldExcl s.jobPQ) (hlt : a < s.acts.length)
     (hold : (s.pcAt a).runningQ = some (j, q)) (hnew : pc'.runningQ = none) :
-    JobInv (((s.pushFront q j).setJobPh j .queued).goto a pc') := by
+    FullInv (((s.pushFront q j).setJobPh j .queued).goto a pc') := by
   have hjq := h.run1 a j q hold
   obtain ⟨b, hb, hbph, hbq⟩ := jobPQ_some hjq
   -- the queue exists: `a` owns its run right
@@ -100,7 +102,7 @@ theorem JobInv.requeue_front {s : State} {a q j : Nat} {pc' : Pc} (hh : HolderIn
   have hqlt : q < s.qs.length := by
     have := (List.getElem?_eq_some_iff.mp hho).1; rw [hh.len] at this; exact this
   have hv : s.qs[q]? = some s.qs[q] := List.getElem?_eq_getElem hqlt
-  refine JobInv.requeue (l0 := s.qs[q].jobs) h (heldExcl_of hh hw h) ?_ ?_ hold (qjobs_of hv) ?_ ?_ ?_ hnew
+  refine FullInv.requeue (l0 := s.qs[q].jobs) h hx ?_ ?_ hold (qjobs_of hv) ?_ ?_ ?_ ?_ ?_ hnew
   · simpa using hlt
   · intro c; simp
   · intro i
@@ -111,47 +113,54 @@ theorem JobInv.requeue_front {s : State} {a q j : Nat} {pc' : Pc} (hh : HolderIn
   · intro i
     rw [qjobs_setJobPh, qjobs_pushFront, qjobs_of hv]; rfl
   · intro i; simp
+  · intro i; simp
+  · rw [jobs_length_setJobPh]; unfold State.pushFront; split <;> rfl
 
-theorem j_pdRequeue {s s' : State} {a : Nat} {o : Obs} (hh : HolderInv s) (hw : WfInv s) (h : JobInv s) (act : Act) (ha : s.acts[a]? = some act) (hc : act.child = none)
-    (p q j : Nat) (hpc : act.pc = .pdRequeue p q j) (hs : stepAct s a = some (s', o)) : JobInv s' := by
+theorem j_pdRequeue {s s' : State} {a : Nat} {o : Obs} (hh : HolderInv s) (hw : WfInv s) (h : FullInv s) (hx : HeldExcl s.jobPQ) (act : Act) (ha : s.acts[a]? = some act) (hc : act.child = none)
+    (p q j : Nat) (hpc : act.pc = .pdRequeue p q j) (hs : stepAct s a = some (s', o)) : FullInv s' := by
   have hlt : a < s.acts.length := lt_of_getElem?_some ha
   have hpca := pcAt_of ha
   unfold stepAct at hs
   simp only [ha, hc, hpc, Option.isSome_none, Bool.false_eq_true, ↓reduceIte] at hs
   simp only [Option.some.injEq, Prod.mk.injEq] at hs; obtain ⟨rfl, _⟩ := hs
-  exact JobInv.requeue_front hh hw h hlt (by rw [hpca, hpc]; rfl) rfl
+  exact FullInv.requeue_front hh hw h hx hlt (by rw [hpca, hpc]; rfl) rfl
 
-theorem j_dqRequeue {s s' : State} {a : Nat} {o : Obs} (hh : HolderInv s) (hw : WfInv s) (h : JobInv s) (act : Act) (ha : s.acts[a]? = some act) (hc : act.child = none)
-    (f j l q : Nat) (hpc : act.pc = .dqRequeue f j l q) (hs : stepAct s a = some (s', o)) : JobInv s' := by
+theorem j_dqRequeue {s s' : State} {a : Nat} {o : Obs} (hh : HolderInv s) (hw : WfInv s) (h : FullInv s) (hx : HeldExcl s.jobPQ) (act : Act) (ha : s.acts[a]? = some act) (hc : act.child = none)
+    (f j l q : Nat) (hpc : act.pc = .dqRequeue f j l q) (hs : stepAct s a = some (s', o)) : FullInv s' := by
   have hlt : a < s.acts.length := lt_of_getElem?_some ha
   have hpca := pcAt_of ha
   unfold stepAct at hs
   simp only [ha, hc, hpc, Option.isSome_none, Bool.false_eq_true, ↓reduceIte] at hs
   simp only [Option.some.injEq, Prod.mk.injEq] at hs; obtain ⟨rfl, _⟩ := hs
-  exact JobInv.requeue_front hh hw h hlt (by rw [hpca, hpc]; rfl) rfl
+  exact FullInv.requeue_front hh hw h hx hlt (by rw [hpca, hpc]; rfl) rfl
 
 /-- the job that `a` runs is finished or destroyed by a `setJob` -/
-theorem JobInv.retire_setJob {s X : State} {a q j : Nat} {b v : Job} {pc' : Pc} (h : JobInv s) (hlt : a < X.acts.length)
+theorem FullInv.retire_setJob {s X : State} {a q j : Nat} {b v : Job} {pc' : Pc} (h : FullInv s) (hlt : a < X.acts.length)
     (hpc : ∀ c, X.pcAt c = s.pcAt c) (hX : ∀ i, X.jobPQ i = (s.setJob j v).jobPQ i) (hq : ∀ i, X.qjobs i = s.qjobs i)
-    (hXo : ∀ i, X.jobOpen i = (s.setJob j v).jobOpen i)
-    (hold : (s.pcAt a).runningQ = some (j, q)) (hb : s.jobs[j]? = some b) (hvq : v.q = b.q) (hvph : v.ph = .done) (hve : v.ended = true)
-    (hnew : pc'.runningQ = none) : JobInv (X.goto a pc') := by
+    (hXb : ∀ i, X.jobB i = (s.setJob j v).jobB i) (hXe : ∀ i, X.jobE i = (s.setJob j v).jobE i) (hn : X.jobs.length = s.jobs.length)
+    (hold : (s.pcAt a).runningQ = some (j, q)) (hb : s.jobs[j]? = some b) (hvq : v.q = b.q) (hvph : v.ph = .done) (hve : v.ended = true) (hvb : v.begun = b.begun)
+    (hnew : pc'.runningQ = none) : FullInv (X.goto a pc') := by
   have hjq := h.run1 a j q hold
   rw [jobPQ_of hb] at hjq
   simp at hjq
-  refine JobInv.retire (ph := .done) h hlt hpc hold (by intro c; simp) (by simp) ?_ hq ?_ hnew
+  refine FullInv.retire h hlt hpc hold ?_ hq ?_ ?_ hn hnew
   · intro i
     rw [hX, jobPQ_setJob_of hb, hvph, hvq, hjq.2]
   · intro i
-    rw [hXo, jobOpen_setJob_of hb, hve]; simp
+    rw [hXb, jobB_setJob_of hb]
+    split
+    · next e => rw [e, jobB_of hb, hvb]
+    · rfl
+  · intro i
+    rw [hXe, jobE_setJob_of hb, hve]
 
 theorem ctxReady_running {k : Pc} {c : Ctx} (hw : (match c with | .caller q => k.plainFor q | _ => true) = true) : (ctxReady k c).runningQ = none := by
   cases c <;> simp_all [ctxReady, Pc.runningQ]
   exact plainFor_running hw
 
 
-theorem j_jobDrop {s s' : State} {a : Nat} {o : Obs} (hw : WfInv s) (h : JobInv s) (act : Act) (ha : s.acts[a]? = some act) (hc : act.child = none)
-    (j : Nat) (c : Ctx) (k : Pc) (hpc : act.pc = .jobDrop j c k) (hs : stepAct s a = some (s', o)) : JobInv s' := by
+theorem j_jobDrop {s s' : State} {a : Nat} {o : Obs} (hw : WfInv s) (h : FullInv s) (hx : HeldExcl s.jobPQ) (act : Act) (ha : s.acts[a]? = some act) (hc : act.child = none)
+    (j : Nat) (c : Ctx) (k : Pc) (hpc : act.pc = .jobDrop j c k) (hs : stepAct s a = some (s', o)) : FullInv s' := by
   have hlt : a < s.acts.length := lt_of_getElem?_some ha
   have hpca := pcAt_of ha
   have hwk := hw a
@@ -167,13 +176,13 @@ theorem j_jobDrop {s s' : State} {a : Nat} {o : Obs} (hw : WfInv s) (h : JobInv 
   · split at hs
     · simp at hs
     · simp only [Option.some.injEq, Prod.mk.injEq] at hs; obtain ⟨rfl, _⟩ := hs
-      have h1 := JobInv.retire_setJob (X := s.setJob j { jb with ph := .done, ended := true }) (pc' := .jobDropNotify j c k) h (by simpa using hlt) (fun _ => rfl) (fun _ => rfl) (fun _ => rfl) (fun _ => rfl) hold hjb rfl rfl rfl rfl
-      exact JobInv.congr h1 (goto_congr _ _ rfl) (by rw [jobs_goto', jobs_goto']) (by rw [qs_goto', qs_goto'])
+      have h1 := FullInv.retire_setJob (X := s.setJob j { jb with ph := .done, ended := true }) (pc' := .jobDropNotify j c k) h (by simpa using hlt) (fun _ => rfl) (fun _ => rfl) (fun _ => rfl) (fun _ => rfl) (fun _ => rfl) (by simp) hold hjb rfl rfl rfl rfl rfl
+      exact FullInv.congr h1 (goto_congr _ _ rfl) (by rw [jobs_goto', jobs_goto']) (by rw [qs_goto', qs_goto'])
   · simp only [Option.some.injEq, Prod.mk.injEq] at hs; obtain ⟨rfl, _⟩ := hs
-    exact JobInv.retire_setJob h (by simpa using hlt) (fun _ => rfl) (fun _ => rfl) (fun _ => rfl) (fun _ => rfl) hold hjb rfl rfl rfl (ctxReady_running hwk)
+    exact FullInv.retire_setJob h (by simpa using hlt) (fun _ => rfl) (fun _ => rfl) (fun _ => rfl) (fun _ => rfl) (fun _ => rfl) (by simp) hold hjb rfl rfl rfl rfl (ctxReady_running hwk)
 
-theorem j_jobDropNotify {s s' : State} {a : Nat} {o : Obs} (hw : WfInv s) (h : JobInv s) (act : Act) (ha : s.acts[a]? = some act) (hc : act.child = none)
-    (j : Nat) (c : Ctx) (k : Pc) (hpc : act.pc = .jobDropNotify j c k) (hs : stepAct s a = some (s', o)) : JobInv s' := by
+theorem j_jobDropNotify {s s' : State} {a : Nat} {o : Obs} (hw : WfInv s) (h : FullInv s) (hx : HeldExcl s.jobPQ) (act : Act) (ha : s.acts[a]? = some act) (hc : act.child = none)
+    (j : Nat) (c : Ctx) (k : Pc) (hpc : act.pc = .jobDropNotify j c k) (hs : stepAct s a = some (s', o)) : FullInv s' := by
   have hpca := pcAt_of ha
   have hwk := hw a
   rw [hpca, hpc] at hwk
@@ -183,11 +192,11 @@ theorem j_jobDropNotify {s s' : State} {a : Nat} {o : Obs} (hw : WfInv s) (h : J
   repeat' split at hs
   all_goals (try (simp at hs; done))
   all_goals (simp only [Option.some.injEq, Prod.mk.injEq] at hs; obtain ⟨rfl, _⟩ := hs)
-  all_goals (refine JobInv.frame h (fun b => by simp) (fun i => by simp) (fun i => by simp) (fun _ hi => Or.inl (by first | exact hi | simpa using hi)) ?_)
+  all_goals (refine FullInv.frame h hx (fun b => by simp) (fun i => by simp) (fun i => by simp) (fun _ hi => Or.inl (by first | exact hi | simpa using hi)) (fun _ hi => by first | exact hi | simpa using hi) (by first | rfl | simp) ?_)
   all_goals (rw [hpca, hpc, ctxReady_running hwk]; rfl)
 
-theorem j_siIdle {s s' : State} {a : Nat} {o : Obs} (h : JobInv s) (act : Act) (ha : s.acts[a]? = some act) (hc : act.child = none)
-    (q j : Nat) (hpc : act.pc = .siIdle q j) (hs : stepAct s a = some (s', o)) : JobInv s' := by
+theorem j_siIdle {s s' : State} {a : Nat} {o : Obs} (h : FullInv s) (hx : HeldExcl s.jobPQ) (act : Act) (ha : s.acts[a]? = some act) (hc : act.child = none)
+    (q j : Nat) (hpc : act.pc = .siIdle q j) (hs : stepAct s a = some (s', o)) : FullInv s' := by
   have hlt : a < s.acts.length := lt_of_getElem?_some ha
   have hpca := pcAt_of ha
   have hold : (s.pcAt a).runningQ = some (j, q) := by rw [hpca, hpc]; rfl
@@ -197,15 +206,15 @@ theorem j_siIdle {s s' : State} {a : Nat} {o : Obs} (h : JobInv s) (act : Act) (
   · simp at hs
   next jb hjb =>
   simp only [Option.some.injEq, Prod.mk.injEq] at hs; obtain ⟨rfl, _⟩ := hs
-  exact JobInv.retire_setJob (v := { jb with ended := true, ph := .done }) h (by simpa using hlt) (fun b => by simp) (fun i => by simp) (fun i => by simp) (fun i => by simp) hold hjb rfl rfl rfl rfl
+  exact FullInv.retire_setJob (v := { jb with ended := true, ph := .done }) h (by simpa using hlt) (fun b => by simp) (fun i => by simp) (fun i => by simp) (fun i => by simp) (fun i => by simp) (by simp) hold hjb rfl rfl rfl rfl rfl
 
 
 theorem qjobs_setQ_state {s : State} {q : Nat} {v : JobQ} (hq : s.qs[q]? = some v) (st : QState) (w : List Nat) (i : Nat) :
     (s.setQ q { state := st, jobs := v.jobs, waiters := w }).qjobs i = s.qjobs i :=
   qjobs_setQ_keep (v' := { state := st, jobs := v.jobs, waiters := w }) hq rfl i
 
-theorem j_rjPending {s s' : State} {a : Nat} {o : Obs} (h : JobInv s) (act : Act) (ha : s.acts[a]? = some act) (hc : act.child = none)
-    (q j : Nat) (k : Pc) (hpc : act.pc = .rjPending q j k) (hs : stepAct s a = some (s', o)) : JobInv s' := by
+theorem j_rjPending {s s' : State} {a : Nat} {o : Obs} (h : FullInv s) (hx : HeldExcl s.jobPQ) (act : Act) (ha : s.acts[a]? = some act) (hc : act.child = none)
+    (q j : Nat) (k : Pc) (hpc : act.pc = .rjPending q j k) (hs : stepAct s a = some (s', o)) : FullInv s' := by
   have hlt : a < s.acts.length := lt_of_getElem?_some ha
   have hpca := pcAt_of ha
   have hold : (s.pcAt a).runningQ = some (j, q) := by rw [hpca, hpc]; rfl
@@ -217,18 +226,18 @@ theorem j_rjPending {s s' : State} {a : Nat} {o : Obs} (h : JobInv s) (act : Act
   next v hv =>
   split at hs
   · simp only [Option.some.injEq, Prod.mk.injEq] at hs; obtain ⟨rfl, _⟩ := hs
-    exact JobInv.frame h (fun b => by simp) (fun i => by simp) (fun i => qjobs_setQ_state hv _ _ i) (fun _ hi => Or.inl (by first | exact hi | simpa using hi)) (by rw [hold]; rfl)
+    exact FullInv.frame h hx (fun b => by simp) (fun i => by simp) (fun i => qjobs_setQ_state hv _ _ i) (fun _ hi => Or.inl (by first | exact hi | simpa using hi)) (fun _ hi => by first | exact hi | simpa using hi) (by first | rfl | simp) (by rw [hold]; rfl)
   · split at hs
     · simp only [Option.some.injEq, Prod.mk.injEq] at hs; obtain ⟨rfl, _⟩ := hs
-      exact JobInv.frame h (fun b => by simp) (fun i => by simp) (fun i => qjobs_setQ_state hv _ _ i) (fun _ hi => Or.inl (by first | exact hi | simpa using hi)) (by rw [hold]; rfl)
+      exact FullInv.frame h hx (fun b => by simp) (fun i => by simp) (fun i => qjobs_setQ_state hv _ _ i) (fun _ hi => Or.inl (by first | exact hi | simpa using hi)) (fun _ hi => by first | exact hi | simpa using hi) (by first | rfl | simp) (by rw [hold]; rfl)
     · have hjb' : (s.setQ q { v with state := (runOnePending v.state).1 }).jobs[j]? = some jb := hjb
       simp only [hjb'] at hs
       simp only [Option.some.injEq, Prod.mk.injEq] at hs; obtain ⟨rfl, _⟩ := hs
-      exact JobInv.retire_setJob (v := { jb with ph := .done, ended := true }) h (by simpa using hlt) (fun b => by simp) (fun i => rfl)
-        (fun i => by rw [qjobs_setJob]; exact qjobs_setQ_state hv _ _ i) (fun i => rfl) hold hjb rfl rfl rfl rfl
+      exact FullInv.retire_setJob (v := { jb with ph := .done, ended := true }) h (by simpa using hlt) (fun b => by simp) (fun i => rfl)
+        (fun i => by rw [qjobs_setJob]; exact qjobs_setQ_state hv _ _ i) (fun i => rfl) (fun i => rfl) (by simp) hold hjb rfl rfl rfl rfl rfl
 
-theorem j_rjParkCheck {s s' : State} {a : Nat} {o : Obs} (h : JobInv s) (act : Act) (ha : s.acts[a]? = some act) (hc : act.child = none)
-    (q j : Nat) (k : Pc) (hpc : act.pc = .rjParkCheck q j k) (hs : stepAct s a = some (s', o)) : JobInv s' := by
+theorem j_rjParkCheck {s s' : State} {a : Nat} {o : Obs} (h : FullInv s) (hx : HeldExcl s.jobPQ) (act : Act) (ha : s.acts[a]? = some act) (hc : act.child = none)
+    (q j : Nat) (k : Pc) (hpc : act.pc = .rjParkCheck q j k) (hs : stepAct s a = some (s', o)) : FullInv s' := by
   have hlt : a < s.acts.length := lt_of_getElem?_some ha
   have hpca := pcAt_of ha
   have hold : (s.pcAt a).runningQ = some (j, q) := by rw [hpca, hpc]; rfl
@@ -237,11 +246,11 @@ theorem j_rjParkCheck {s s' : State} {a : Nat} {o : Obs} (h : JobInv s) (act : A
   simp only [ha, hc, hpc, Option.isSome_none, Bool.false_eq_true, ↓reduceIte, hjb] at hs
   split at hs
   · simp only [Option.some.injEq, Prod.mk.injEq] at hs; obtain ⟨rfl, _⟩ := hs
-    exact JobInv.frame h (fun b => rfl) (fun i => rfl) (fun i => rfl) (fun _ hi => Or.inl (by first | exact hi | simpa using hi)) (by rw [hold]; rfl)
+    exact FullInv.frame h hx (fun b => rfl) (fun i => rfl) (fun i => rfl) (fun _ hi => Or.inl (by first | exact hi | simpa using hi)) (fun _ hi => by first | exact hi | simpa using hi) (by first | rfl | simp) (by rw [hold]; rfl)
   · simp only [Option.some.injEq, Prod.mk.injEq] at hs; obtain ⟨rfl, _⟩ := hs
-    exact JobInv.frame h (fun b => rfl) (fun i => rfl) (fun i => rfl) (fun _ hi => Or.inl (by first | exact hi | simpa using hi)) (by rw [hold]; rfl)
+    exact FullInv.frame h hx (fun b => rfl) (fun i => rfl) (fun i => rfl) (fun _ hi => Or.inl (by first | exact hi | simpa using hi)) (fun _ hi => by first | exact hi | simpa using hi) (by first | rfl | simp) (by rw [hold]; rfl)
   · simp only [Option.some.injEq, Prod.mk.injEq] at hs; obtain ⟨rfl, _⟩ := hs
-    exact JobInv.retire_setJob (v := { jb with ph := .done, ended := true }) h (by simpa using hlt) (fun b => rfl) (fun i => rfl) (fun i => rfl) (fun i => rfl) hold hjb rfl rfl rfl rfl
+    exact FullInv.retire_setJob (v := { jb with ph := .done, ended := true }) h (by simpa using hlt) (fun b => rfl) (fun i => rfl) (fun i => rfl) (fun i => rfl) (fun i => rfl) (by simp) hold hjb rfl rfl rfl rfl rfl
 
 
 theorem jobPQ_of_append {Y s : State} {nj : Job} (hJ : Y.jobs = s.jobs ++ [nj]) (i : Nat) :
@@ -255,8 +264,8 @@ theorem jobPQ_of_append {Y s : State} {nj : Job} (hJ : Y.jobs = s.jobs ++ [nj]) 
       have h2 : s.jobs[i]? = none := by simp; omega
       simp [h, h1, h2]
 
-theorem j_syDecide {s s' : State} {a : Nat} {o : Obs} (h : JobInv s) (act : Act) (ha : s.acts[a]? = some act) (hc : act.child = none)
-    (q : Nat) (b : Body) (hpc : act.pc = .syDecide q b) (hs : stepAct s a = some (s', o)) : JobInv s' := by
+theorem j_syDecide {s s' : State} {a : Nat} {o : Obs} (hh : HolderInv s) (hw : WfInv s) (h : FullInv s) (hx : HeldExcl s.jobPQ) (act : Act) (ha : s.acts[a]? = some act) (hc : act.child = none)
+    (q : Nat) (b : Body) (hpc : act.pc = .syDecide q b) (hs : stepAct s a = some (s', o)) : FullInv s' := by
   have hlt : a < s.acts.length := lt_of_getElem?_some ha
   have hpca := pcAt_of ha
   have hidle : (s.pcAt a).runningQ = none := by rw [hpca, hpc]; rfl
@@ -267,22 +276,29 @@ theorem j_syDecide {s s' : State} {a : Nat} {o : Obs} (h : JobInv s) (act : Act)
   next v hv =>
   split at hs
   · simp only [Option.some.injEq, Prod.mk.injEq] at hs; obtain ⟨rfl, _⟩ := hs
-    refine JobInv.newHeld (n := s.jobs.length) (q := q) h (by simpa using hlt) (fun c => rfl) hidle (jobPQ_fresh s) ?_ ?_ ?_ ?_ (by simp [Pc.runningQ])
-    · rw [qjobs_of hv]
-      have he : v.jobs.isEmpty = true := by first | exact ((syncDecide_immediate_iff _ _).mp ‹_›).2 | exact ((trySync_immediate_iff _ _).mp ‹_›).2
-      simpa using he
+    have hidleSt : v.state = .idle ∧ v.jobs.isEmpty = true := by first | exact ((syncDecide_immediate_iff _ _).mp ‹_›) | exact ((trySync_immediate_iff _ _).mp ‹_›)
+    refine FullInv.newHeld (q := q) h (by simpa using hlt) (fun c => rfl) hidle ?_ ?_ ?_ ?_ ?_ ?_ ?_ (by simp [Pc.runningQ])
+    · rw [qjobs_of hv]; simpa using hidleSt.2
+    · -- nobody holds a job of an idle queue
+      intro j' a' hj'
+      have r := h.run2 a' j' q hj'
+      have ho := (hh.iff a' q).mp (holds_of_runningQ (hw a') r)
+      have := hh.held a' q v ho hv
+      rw [hidleSt.1] at this; simp [QState.held] at this
     · intro i; rw [jobPQ_setHolder]; exact jobPQ_of_append (nj := ⟨q, .immediate a b, .held a, true, false, none⟩) (by rfl) i
     · intro i; exact qjobs_setQ_state hv _ _ i
-    · intro i hi; rw [jobOpen_setHolder, jobOpen_of_append (s := s) (nj := ⟨q, .immediate a b, .held a, true, false, none⟩) (by rfl)]; simp [hi]
+    · intro i hi; rw [jobB_setHolder, jobB_of_append (s := s) (nj := ⟨q, .immediate a b, .held a, true, false, none⟩) (by rfl)]; simp [hi]
+    · intro i hi; rw [jobE_setHolder, jobE_of_append (s := s) (nj := ⟨q, .immediate a b, .held a, true, false, none⟩) (by rfl)]; simp [hi]
+    · simp
   · split at hs
     · simp only [Option.some.injEq, Prod.mk.injEq] at hs; obtain ⟨rfl, _⟩ := hs
-      exact JobInv.frame h (fun c => rfl) (fun i => rfl) (fun i => qjobs_setQ_state hv _ _ i) (fun _ hi => Or.inl (by first | exact hi | simpa using hi)) (by rw [hidle]; rfl)
+      exact FullInv.frame h hx (fun c => rfl) (fun i => rfl) (fun i => qjobs_setQ_state hv _ _ i) (fun _ hi => Or.inl (by first | exact hi | simpa using hi)) (fun _ hi => by first | exact hi | simpa using hi) (by first | rfl | simp) (by rw [hidle]; rfl)
     · split at hs <;>
       · simp only [Option.some.injEq, Prod.mk.injEq] at hs; obtain ⟨rfl, _⟩ := hs
-        exact JobInv.frame h (fun c => rfl) (fun i => rfl) (fun i => qjobs_setQ_state hv _ _ i) (fun _ hi => Or.inl (by first | exact hi | simpa using hi)) (by rw [hidle]; rfl)
+        exact FullInv.frame h hx (fun c => rfl) (fun i => rfl) (fun i => qjobs_setQ_state hv _ _ i) (fun _ hi => Or.inl (by first | exact hi | simpa using hi)) (fun _ hi => by first | exact hi | simpa using hi) (by first | rfl | simp) (by rw [hidle]; rfl)
 
-theorem j_tsDecide {s s' : State} {a : Nat} {o : Obs} (h : JobInv s) (act : Act) (ha : s.acts[a]? = some act) (hc : act.child = none)
-    (q : Nat) (b : Body) (hpc : act.pc = .tsDecide q b) (hs : stepAct s a = some (s', o)) : JobInv s' := by
+theorem j_tsDecide {s s' : State} {a : Nat} {o : Obs} (hh : HolderInv s) (hw : WfInv s) (h : FullInv s) (hx : HeldExcl s.jobPQ) (act : Act) (ha : s.acts[a]? = some act) (hc : act.child = none)
+    (q : Nat) (b : Body) (hpc : act.pc = .tsDecide q b) (hs : stepAct s a = some (s', o)) : FullInv s' := by
   have hlt : a < s.acts.length := lt_of_getElem?_some ha
   have hpca := pcAt_of ha
   have hidle : (s.pcAt a).runningQ = none := by rw [hpca, hpc]; rfl
@@ -293,31 +309,38 @@ theorem j_tsDecide {s s' : State} {a : Nat} {o : Obs} (h : JobInv s) (act : Act)
   next v hv =>
   split at hs
   · simp only [Option.some.injEq, Prod.mk.injEq] at hs; obtain ⟨rfl, _⟩ := hs
-    refine JobInv.newHeld (n := s.jobs.length) (q := q) h (by simpa using hlt) (fun c => rfl) hidle (jobPQ_fresh s) ?_ ?_ ?_ ?_ (by simp [Pc.runningQ])
-    · rw [qjobs_of hv]
-      have he : v.jobs.isEmpty = true := by first | exact ((syncDecide_immediate_iff _ _).mp ‹_›).2 | exact ((trySync_immediate_iff _ _).mp ‹_›).2
-      simpa using he
+    have hidleSt : v.state = .idle ∧ v.jobs.isEmpty = true := by first | exact ((syncDecide_immediate_iff _ _).mp ‹_›) | exact ((trySync_immediate_iff _ _).mp ‹_›)
+    refine FullInv.newHeld (q := q) h (by simpa using hlt) (fun c => rfl) hidle ?_ ?_ ?_ ?_ ?_ ?_ ?_ (by simp [Pc.runningQ])
+    · rw [qjobs_of hv]; simpa using hidleSt.2
+    · -- nobody holds a job of an idle queue
+      intro j' a' hj'
+      have r := h.run2 a' j' q hj'
+      have ho := (hh.iff a' q).mp (holds_of_runningQ (hw a') r)
+      have := hh.held a' q v ho hv
+      rw [hidleSt.1] at this; simp [QState.held] at this
     · intro i; rw [jobPQ_setHolder]; exact jobPQ_of_append (nj := ⟨q, .immediate a b, .held a, true, false, none⟩) (by rfl) i
     · intro i; exact qjobs_setQ_state hv _ _ i
-    · intro i hi; rw [jobOpen_setHolder, jobOpen_of_append (s := s) (nj := ⟨q, .immediate a b, .held a, true, false, none⟩) (by rfl)]; simp [hi]
+    · intro i hi; rw [jobB_setHolder, jobB_of_append (s := s) (nj := ⟨q, .immediate a b, .held a, true, false, none⟩) (by rfl)]; simp [hi]
+    · intro i hi; rw [jobE_setHolder, jobE_of_append (s := s) (nj := ⟨q, .immediate a b, .held a, true, false, none⟩) (by rfl)]; simp [hi]
+    · simp
   · split at hs
     · simp only [Option.some.injEq, Prod.mk.injEq] at hs; obtain ⟨rfl, _⟩ := hs
-      exact JobInv.frame_setAct h (fun c => rfl) (fun i => rfl) (fun i => qjobs_setQ_state hv _ _ i) (fun _ hi => Or.inl (by first | exact hi | simpa using hi)) (by rw [hidle]; rfl)
+      exact FullInv.frame_setAct h hx (fun c => rfl) (fun i => rfl) (fun i => qjobs_setQ_state hv _ _ i) (fun _ hi => Or.inl (by first | exact hi | simpa using hi)) (fun _ hi => by first | exact hi | simpa using hi) (by first | rfl | simp) (by rw [hidle]; rfl)
     · simp only [Option.some.injEq, Prod.mk.injEq] at hs; obtain ⟨rfl, _⟩ := hs
-      exact JobInv.frame h (fun c => rfl) (fun i => rfl) (fun i => qjobs_setQ_state hv _ _ i) (fun _ hi => Or.inl (by first | exact hi | simpa using hi)) (by rw [hidle]; rfl)
+      exact FullInv.frame h hx (fun c => rfl) (fun i => rfl) (fun i => qjobs_setQ_state hv _ _ i) (fun _ hi => Or.inl (by first | exact hi | simpa using hi)) (fun _ hi => by first | exact hi | simpa using hi) (by first | rfl | simp) (by rw [hidle]; rfl)
 
 
 /-- a new job is appended to the job table and to the back of queue `q` -/
-theorem JobInv.push_new {s X : State} {a q : Nat} {v : JobQ} {pc' : Pc} (h : JobInv s) (hv : s.qs[q]? = some v)
+theorem FullInv.push_new {s X : State} {a q : Nat} {v : JobQ} {pc' : Pc} (h : FullInv s) (hv : s.qs[q]? = some v)
     (hpc : ∀ c, X.pcAt c = s.pcAt c)
     (hj : ∀ i, X.jobPQ i = if i = s.jobs.length then some (.queued, q) else s.jobPQ i)
     (hq : ∀ i, X.qjobs i = if i = q then some (v.jobs ++ [s.jobs.length]) else s.qjobs i)
-    (ho : ∀ i, X.jobOpen i = s.jobOpen i)
-    (hrun : pc'.runningQ = (s.pcAt a).runningQ) : JobInv (X.goto a pc') :=
-  JobInv.newQueued h hpc (jobPQ_fresh s) (qjobs_of hv) hj hq (fun i => by rw [ho]; by_cases e : i = s.jobs.length <;> simp [e, jobOpen_fresh]) hrun
+    (hb : ∀ i, X.jobB i = s.jobB i) (he : ∀ i, X.jobE i = s.jobE i) (hn : X.jobs.length = s.jobs.length + 1)
+    (hrun : pc'.runningQ = (s.pcAt a).runningQ) : FullInv (X.goto a pc') :=
+  FullInv.newQueued h hpc (qjobs_of hv) hj hq hb he hn hrun
 
-theorem j_dsPush {s s' : State} {a : Nat} {o : Obs} (h : JobInv s) (act : Act) (ha : s.acts[a]? = some act) (hc : act.child = none)
-    (q : Nat) (kind : JobKind) (hpc : act.pc = .dsPush q kind) (hs : stepAct s a = some (s', o)) : JobInv s' := by
+theorem j_dsPush {s s' : State} {a : Nat} {o : Obs} (h : FullInv s) (hx : HeldExcl s.jobPQ) (act : Act) (ha : s.acts[a]? = some act) (hc : act.child = none)
+    (q : Nat) (kind : JobKind) (hpc : act.pc = .dsPush q kind) (hs : stepAct s a = some (s', o)) : FullInv s' := by
   have hpca := pcAt_of ha
   have hidle : (s.pcAt a).runningQ = none := by rw [hpca, hpc]; rfl
   unfold stepAct at hs
@@ -328,14 +351,15 @@ theorem j_dsPush {s s' : State} {a : Nat} {o : Obs} (h : JobInv s) (act : Act) (
   have hv' : (s.newJob q kind).1.qs[q]? = some v := hv
   repeat' split at hs
   all_goals (simp only [Option.some.injEq, Prod.mk.injEq] at hs; obtain ⟨rfl, _⟩ := hs)
-  all_goals (refine JobInv.push_new h hv (fun c => rfl) ?_ ?_ ?_ (by rw [hidle]; rfl))
+  all_goals (refine FullInv.push_new h hv (fun c => rfl) ?_ ?_ ?_ ?_ ?_ (by rw [hidle]; rfl))
   all_goals (first
     | (intro i; rw [jobPQ_setQ]; exact jobPQ_newJob s q kind i)
     | (intro i; rw [qjobs_setQ_of hv']; simp; done)
-    | (intro i; simp))
+    | (intro i; simp; done)
+    | (simp; done))
 
-theorem j_sdPush {s s' : State} {a : Nat} {o : Obs} (hh : HolderInv s) (h : JobInv s) (act : Act) (ha : s.acts[a]? = some act) (hc : act.child = none)
-    (q : Nat) (b : Body) (hpc : act.pc = .sdPush q b) (hs : stepAct s a = some (s', o)) : JobInv s' := by
+theorem j_sdPush {s s' : State} {a : Nat} {o : Obs} (hh : HolderInv s) (h : FullInv s) (hx : HeldExcl s.jobPQ) (act : Act) (ha : s.acts[a]? = some act) (hc : act.child = none)
+    (q : Nat) (b : Body) (hpc : act.pc = .sdPush q b) (hs : stepAct s a = some (s', o)) : FullInv s' := by
   have hpca := pcAt_of ha
   have hidle : (s.pcAt a).runningQ = none := by rw [hpca, hpc]; rfl
   unfold stepAct at hs
@@ -348,7 +372,7 @@ theorem j_sdPush {s s' : State} {a : Nat} {o : Obs} (hh : HolderInv s) (h : JobI
     have := (List.getElem?_eq_some_iff.mp hho).1; rw [hh.len] at this; exact this
   obtain ⟨v, hv⟩ : ∃ v, s.qs[q]? = some v := ⟨s.qs[q], List.getElem?_eq_getElem hqlt⟩
   have hv' : (s.newJob q (.erasedDrain a b)).1.qs[q]? = some v := hv
-  refine JobInv.push_new h hv (fun c => by simp) ?_ ?_ ?_ (by rw [hidle]; rfl)
+  refine FullInv.push_new h hv (fun c => by simp) ?_ ?_ ?_ ?_ ?_ (by rw [hidle]; rfl)
   · intro i; rw [jobPQ_pushBack]; exact jobPQ_newJob s q _ i
   · intro i
     unfold State.pushBack
@@ -356,9 +380,11 @@ theorem j_sdPush {s s' : State} {a : Nat} {o : Obs} (hh : HolderInv s) (h : JobI
     simp only [newJob_snd]
     rw [qjobs_setQ_of hv']; simp
   · intro i; simp
+  · intro i; simp
+  · unfold State.pushBack; rw [hv']; simp
 
-theorem j_sbPush {s s' : State} {a : Nat} {o : Obs} (h : JobInv s) (act : Act) (ha : s.acts[a]? = some act) (hc : act.child = none)
-    (q : Nat) (b : Body) (hpc : act.pc = .sbPush q b) (hs : stepAct s a = some (s', o)) : JobInv s' := by
+theorem j_sbPush {s s' : State} {a : Nat} {o : Obs} (h : FullInv s) (hx : HeldExcl s.jobPQ) (act : Act) (ha : s.acts[a]? = some act) (hc : act.child = none)
+    (q : Nat) (b : Body) (hpc : act.pc = .sbPush q b) (hs : stepAct s a = some (s', o)) : FullInv s' := by
   have hpca := pcAt_of ha
   have hidle : (s.pcAt a).runningQ = none := by rw [hpca, hpc]; rfl
   unfold stepAct at hs
@@ -369,16 +395,17 @@ theorem j_sbPush {s s' : State} {a : Nat} {o : Obs} (h : JobInv s) (act : Act) (
   have hv' : (s.newJob q (.erasedBg a b)).1.qs[q]? = some v := hv
   repeat' split at hs
   all_goals (simp only [Option.some.injEq, Prod.mk.injEq] at hs; obtain ⟨rfl, _⟩ := hs)
-  all_goals (refine JobInv.push_new h hv (fun c => rfl) ?_ ?_ ?_ (by rw [hidle]; rfl))
+  all_goals (refine FullInv.push_new h hv (fun c => rfl) ?_ ?_ ?_ ?_ ?_ (by rw [hidle]; rfl))
   all_goals (first
     | (intro i; rw [jobPQ_setQ]; exact jobPQ_newJob s q _ i)
     | (intro i; rw [qjobs_setQ_of hv']; simp; done)
-    | (intro i; simp))
+    | (intro i; simp; done)
+    | (simp; done))
 
 
-theorem JobInv.append_act {s X : State} {n : Act} (h : JobInv s) (hA : X.acts = s.acts ++ [n]) (hn : n.pc.runningQ = none)
-    (hJ : X.jobs = s.jobs) (hQ : X.qs = s.qs) : JobInv X := by
-  refine JobInv.of_eq h ?_ (fun i => by simp only [State.jobPQ, hJ]) (fun i => by simp only [State.qjobs, hQ]) (fun i => by simp only [State.jobOpen, hJ])
+theorem FullInv.append_act {s X : State} {n : Act} (h : FullInv s) (hA : X.acts = s.acts ++ [n]) (hn : n.pc.runningQ = none)
+    (hJ : X.jobs = s.jobs) (hQ : X.qs = s.qs) : FullInv X := by
+  refine FullInv.of_eq h ?_ (fun i => by simp only [State.jobPQ, hJ]) (fun i => by simp only [State.qjobs, hQ]) (fun i => by simp only [State.jobB, hJ]) (fun i => by simp only [State.jobE, hJ]) (by rw [hJ])
   intro b
   simp only [State.pcAt, hA]
   by_cases hlt : b < s.acts.length
@@ -389,15 +416,18 @@ theorem JobInv.append_act {s X : State} {n : Act} (h : JobInv s) (hA : X.acts = 
       have h2 : s.acts[b]? = none := by simp; omega
       rw [h1, h2]
 
-theorem JobInv.spawn_goto {s X : State} {a : Nat} {n : Act} {pc' : Pc} (h : JobInv s) (hA : X.acts = s.acts ++ [n]) (hn : n.pc.runningQ = none)
-    (hJ : X.jobs = s.jobs) (hQ : X.qs = s.qs) (hlt : a < s.acts.length) (hrun : pc'.runningQ = (s.pcAt a).runningQ) : JobInv (X.goto a pc') := by
-  have hX : JobInv X := JobInv.append_act h hA hn hJ hQ
-  refine JobInv.frame hX (fun _ => rfl) (fun _ => rfl) (fun _ => rfl) (fun _ hi => Or.inl hi) ?_
+theorem FullInv.spawn_goto {s X : State} {a : Nat} {n : Act} {pc' : Pc} (h : FullInv s) (hx : HeldExcl s.jobPQ) (hA : X.acts = s.acts ++ [n]) (hn : n.pc.runningQ = none)
+    (hJ : X.jobs = s.jobs) (hQ : X.qs = s.qs) (hlt : a < s.acts.length) (hrun : pc'.runningQ = (s.pcAt a).runningQ) : FullInv (X.goto a pc') := by
+  have hX : FullInv X := FullInv.append_act h hA hn hJ hQ
+  have hxX : HeldExcl X.jobPQ := by
+    have : X.jobPQ = s.jobPQ := funext (fun i => by simp only [State.jobPQ, hJ])
+    rw [this]; exact hx
+  refine FullInv.frame hX hxX (fun _ => rfl) (fun _ => rfl) (fun _ => rfl) (fun _ hi => Or.inl hi) (fun _ hi => hi) rfl ?_
   rw [hrun]
   simp only [State.pcAt, hA, List.getElem?_append_left hlt]
 
-theorem j_stSpawn {s s' : State} {a : Nat} {o : Obs} (h : JobInv s) (act : Act) (ha : s.acts[a]? = some act) (hc : act.child = none)
-    (m : Nat) (k : Pc) (hpc : act.pc = .stSpawn m k) (hs : stepAct s a = some (s', o)) : JobInv s' := by
+theorem j_stSpawn {s s' : State} {a : Nat} {o : Obs} (h : FullInv s) (hx : HeldExcl s.jobPQ) (act : Act) (ha : s.acts[a]? = some act) (hc : act.child = none)
+    (m : Nat) (k : Pc) (hpc : act.pc = .stSpawn m k) (hs : stepAct s a = some (s', o)) : FullInv s' := by
   have hlt : a < s.acts.length := lt_of_getElem?_some ha
   have hpca := pcAt_of ha
   unfold stepAct at hs
@@ -406,12 +436,12 @@ theorem j_stSpawn {s s' : State} {a : Nat} {o : Obs} (h : JobInv s) (act : Act) 
   · simp at hs
   · split at hs
     · simp only [Option.some.injEq, Prod.mk.injEq] at hs; obtain ⟨rfl, _⟩ := hs
-      exact JobInv.spawn_goto h rfl (by rfl) rfl rfl hlt (by rw [hpca, hpc]; rfl)
+      exact FullInv.spawn_goto h hx rfl (by rfl) rfl rfl hlt (by rw [hpca, hpc]; rfl)
     · simp only [Option.some.injEq, Prod.mk.injEq] at hs; obtain ⟨rfl, _⟩ := hs
-      exact JobInv.frame h (fun c => rfl) (fun i => rfl) (fun i => rfl) (fun _ hi => Or.inl (by first | exact hi | simpa using hi)) (by rw [hpca, hpc]; rfl)
+      exact FullInv.frame h hx (fun c => rfl) (fun i => rfl) (fun i => rfl) (fun _ hi => Or.inl (by first | exact hi | simpa using hi)) (fun _ hi => by first | exact hi | simpa using hi) (by first | rfl | simp) (by rw [hpca, hpc]; rfl)
 
-theorem j_sbPrune {s s' : State} {a : Nat} {o : Obs} (h : JobInv s) (act : Act) (ha : s.acts[a]? = some act) (hc : act.child = none)
-    (q : Nat) (hpc : act.pc = .sbPrune q) (hs : stepAct s a = some (s', o)) : JobInv s' := by
+theorem j_sbPrune {s s' : State} {a : Nat} {o : Obs} (h : FullInv s) (hx : HeldExcl s.jobPQ) (act : Act) (ha : s.acts[a]? = some act) (hc : act.child = none)
+    (q : Nat) (hpc : act.pc = .sbPrune q) (hs : stepAct s a = some (s', o)) : FullInv s' := by
   have hpca := pcAt_of ha
   unfold stepAct at hs
   simp only [ha, hc, hpc, Option.isSome_none, Bool.false_eq_true, ↓reduceIte] at hs
@@ -419,14 +449,14 @@ theorem j_sbPrune {s s' : State} {a : Nat} {o : Obs} (h : JobInv s) (act : Act) 
   · simp at hs
   next v hv =>
   simp only [Option.some.injEq, Prod.mk.injEq] at hs; obtain ⟨rfl, _⟩ := hs
-  have h1 : JobInv (s.goto a Pc.ret) := JobInv.frame h (fun c => rfl) (fun i => rfl) (fun i => rfl) (fun _ hi => Or.inl (by first | exact hi | simpa using hi)) (by rw [hpca, hpc]; rfl)
-  refine JobInv.of_eq h1 (fun b => rfl) (fun i => rfl) ?_ (fun i => rfl)
+  have h1 : FullInv (s.goto a Pc.ret) := FullInv.frame h hx (fun c => rfl) (fun i => rfl) (fun i => rfl) (fun _ hi => Or.inl (by first | exact hi | simpa using hi)) (fun _ hi => by first | exact hi | simpa using hi) (by first | rfl | simp) (by rw [hpca, hpc]; rfl)
+  refine FullInv.of_eq h1 (fun b => rfl) (fun i => rfl) ?_ (fun i => rfl) (fun i => rfl) rfl
   intro i
   have hv' : (s.goto a Pc.ret).qs[q]? = some v := by rw [qs_goto']; exact hv
   exact qjobs_setQ_state hv' _ _ i
 
-theorem j_ptPop {s s' : State} {a : Nat} {o : Obs} (h : JobInv s) (act : Act) (ha : s.acts[a]? = some act) (hc : act.child = none)
-    (p : Nat) (hpc : act.pc = .ptPop p) (hs : stepAct s a = some (s', o)) : JobInv s' := by
+theorem j_ptPop {s s' : State} {a : Nat} {o : Obs} (h : FullInv s) (hx : HeldExcl s.jobPQ) (act : Act) (ha : s.acts[a]? = some act) (hc : act.child = none)
+    (p : Nat) (hpc : act.pc = .ptPop p) (hs : stepAct s a = some (s', o)) : FullInv s' := by
   have hpca := pcAt_of ha
   have hidle : (s.pcAt a).runningQ = none := by rw [hpca, hpc]; rfl
   unfold stepAct at hs
@@ -434,7 +464,7 @@ theorem j_ptPop {s s' : State} {a : Nat} {o : Obs} (h : JobInv s) (act : Act) (h
   repeat' split at hs
   all_goals (try (simp at hs; done))
   all_goals (simp only [Option.some.injEq, Prod.mk.injEq] at hs; obtain ⟨rfl, _⟩ := hs)
-  all_goals (refine JobInv.frame h (fun c => rfl) (fun i => rfl) ?_ (fun _ hi => Or.inl (by first | exact hi | simpa using hi)) (by rw [hidle]; rfl))
+  all_goals (refine FullInv.frame h hx (fun c => rfl) (fun i => rfl) ?_ (fun _ hi => Or.inl (by first | exact hi | simpa using hi)) (fun _ hi => by first | exact hi | simpa using hi) (by first | rfl | simp) (by rw [hidle]; rfl))
   all_goals (first | (intro i; rfl) | (intro i; rw [qjobs_setHolder]; exact qjobs_setQ_state (s := { s with schedule := _ }) (by assumption) _ _ i) | (intro i; exact qjobs_setQ_state (s := { s with schedule := _ }) (by assumption) _ _ i))
 
 end Desync
